@@ -99,9 +99,25 @@ func runOp(p *plenc.Plenc, op c07Op, cfg vh.Cfg) (out string, panicked string) {
 			// a failed decode first (its outcome is not examined), then the real one
 			data := vh.RefEncode(op.T, op.V, cfg)
 			if len(data) > 2 {
-				for _, bad := range [][]byte{data[:len(data)-1], data[:len(data)/2], append(append([]byte{}, data[:len(data)/2]...), 0xff, 0xff, 0xff, 0xff, 0x0f)} {
-					scratch := reflect.New(op.T.Build())
-					_ = p.Unmarshal(bad, scratch.Interface())
+				bt := op.T.Build()
+				lim := len(data)
+				if lim > 64 {
+					lim = 64
+				}
+				for cut := 1; cut < lim; cut++ {
+					scratch := reflect.New(bt)
+					_ = p.Unmarshal(data[:cut:cut], scratch.Interface())
+				}
+				scratch := reflect.New(bt)
+				_ = p.Unmarshal(append(append([]byte{}, data[:len(data)/2]...), 0xff, 0xff, 0xff, 0xff, 0x0f), scratch.Interface())
+				// damaged in place: complete frames whose contents are corrupt fail deeper down
+				for pos := 0; pos < lim; pos++ {
+					for _, nb := range []byte{data[pos] ^ 0x55, 0x7f, data[pos] + 3} {
+						bad := append([]byte{}, data...)
+						bad[pos] = nb
+						scratch := reflect.New(bt)
+						_ = p.Unmarshal(bad, scratch.Interface())
+					}
 				}
 			}
 			got, err := vh.UnmarshalFresh(p, op.T, data)
@@ -180,7 +196,7 @@ func c07Run(c c07Case, x *vh.Ctx) *vh.Failure {
 	}
 	building := false
 	for _, pt := range s.PreemptPoints {
-		if pt == "struct-field" || pt == "struct-start" || pt == "struct-before-index" || pt == "struct-before-publish" || pt == "before-store" || pt == "registry-miss" {
+		if pt == "map-key-read" || pt == "struct-field" || pt == "struct-start" || pt == "struct-before-index" || pt == "struct-before-publish" || pt == "before-store" || pt == "registry-miss" {
 			building = true
 		}
 		x.Label("preempt-at:" + pt)
